@@ -43,7 +43,7 @@ def main():
         "setup_cmd": "./setup.sh",
         "hooks": {
             "guard": "pendulum_project_ntpd_rs_verif",
-            "enable": "cargo rustc -p <crate> --lib --profile test --offline -- --cfg pendulum_project_ntpd_rs_verif --cfg verif_all (falls back to --cfg verif_<id> for one property); CARGO_TARGET_DIR=/verif/.cache/target; CARGO_PROFILE_{TEST,DEV}_{OVERFLOW_CHECKS,DEBUG_ASSERTIONS}=false give the test build the release semantics the models follow",
+            "enable": "RUSTC_WORKSPACE_WRAPPER=/verif/tools/wrap/verif_all (adds --cfg pendulum_project_ntpd_rs_verif --cfg verif_all to workspace members) cargo test --no-run --lib -p ntp-proto -p ntpd -p statime-wire -p statime-base -p statime-algo -p statime-csptp --offline; CARGO_TARGET_DIR=/verif/.cache/target; CARGO_PROFILE_{TEST,DEV}_{OVERFLOW_CHECKS,DEBUG_ASSERTIONS}=false give the test build the release semantics the models follow; falls back to the wrapper verif_<id> (only that property harness module) when the all-properties build fails",
             "baseline_off_cmd": "cd /repo && cargo test --workspace --no-fail-fast --offline",
             "source_commits": commits,
             "add_only": True,
